@@ -145,6 +145,33 @@ m("distinct-skipped", ["C02"], "break", "parser.go",
   "	distinct := false\n	if p.Token.Kind == \"DISTINCT\" {\n		p.nextToken()\n	}")
 m("as-flag-ignored", ["C02"], "break", "ast/sql.go", "	return strOpt(!a.As.Invalid(), \"AS \") + a.Alias.SQL()", "	return \"AS \" + a.Alias.SQL()")
 
+# ---- byte-level bounds (C03/R6) and comment scanning (C14/R8) -----------------------------------
+m("escape-digit-loop-continue", ["C03"], "break", "lexer.go",
+  "					if !(l.peekOk(i+j) && char.IsHexDigit(l.peek(i+j))) {\n						if noPanic {\n							hasError = true\n							continue scan\n						}\n						l.panicfAtPosition(token.Pos(l.pos+i-2), token.Pos(l.pos+i+j+1), \"invalid escape sequence: hex",
+  "					if !(l.peekOk(i+j) && char.IsHexDigit(l.peek(i+j))) {\n						if noPanic {\n							hasError = true\n							continue\n						}\n						l.panicfAtPosition(token.Pos(l.pos+i-2), token.Pos(l.pos+i+j+1), \"invalid escape sequence: hex",
+  "reverts a048bd0 for the hex escape: \"\\x4 at <eof> leaves the cursor past the buffer in recovering mode")
+m("error-end-not-clamped", ["C03"], "break", "lexer.go",
+  "	if int(end) > len(l.Buffer) {\n		end = token.Pos(len(l.Buffer))\n	}\n", "", "reverts 2fb90ee")
+m("dot-digit-without-peekok", ["C03"], "break", "lexer.go",
+  "		if !nextDotIdent && l.peekOk(1) && char.IsDigit(l.peek(1)) {", "		if !nextDotIdent && char.IsDigit(l.peek(1)) {",
+  "a lone '.' at end of input indexes past the buffer")
+m("hash-comment-skips-two", ["C03", "C16"], "break", "lexer.go",
+  "	pos := token.Pos(l.pos)\n	for !l.eof() {\n		if l.slice(0, len(end)) == end {",
+  "	pos := token.Pos(l.pos)\n	l.skipN(2)\n	for !l.eof() {\n		if l.slice(0, len(end)) == end {",
+  "'#' is one byte: the byte after it is skipped unexamined and '#' as the last byte moves the cursor past the end")
+m("comment-scan-inplace", ["C03", "C14", "C11", "C12", "C16"], "keep", "lexer.go",
+  "	for !l.eof() {\n		if l.slice(0, len(end)) == end {\n			l.skipN(len(end))\n			return false\n		}\n		l.skip()\n	}\n	if mustEnd {",
+  "	for last := len(l.Buffer) - len(end); l.pos <= last; l.pos++ {\n		if l.Buffer[l.pos:l.pos+len(end)] == end {\n			l.skipN(len(end))\n			return false\n		}\n	}\n	l.pos = len(l.Buffer)\n	if mustEnd {",
+  "a correct in-place rewrite of the terminator search")
+m("comment-scan-offbyone", ["C14", "C11", "C12", "C16"], "break", "lexer.go",
+  "	for !l.eof() {\n		if l.slice(0, len(end)) == end {\n			l.skipN(len(end))\n			return false\n		}\n		l.skip()\n	}\n	if mustEnd {",
+  "	for last := len(l.Buffer) - len(end); l.pos < last; l.pos++ {\n		if l.Buffer[l.pos:l.pos+len(end)] == end {\n			l.skipN(len(end))\n			return false\n		}\n	}\n	l.pos = len(l.Buffer)\n	if mustEnd {",
+  "the last position where the terminator fits is never examined: a block comment ending exactly at end of input is 'unclosed'")
+m("quote-index-after-advance", ["C03", "C15"], "break", "token/quote.go",
+  "		r, size := utf8.DecodeRuneInString(s[i:])\n		if r == utf8.RuneError && size == 1 {",
+  "		r, size := utf8.DecodeRuneInString(s[i:])\n		i += size\n		if r == utf8.RuneError && size == 1 {",
+  "s[i] is read after i was advanced (the later `i++`/`i += size` are left in place: also skips bytes)")
+
 def sh(cmd, cwd=None):
     return subprocess.run(cmd, shell=True, cwd=cwd, capture_output=True, text=True)
 
@@ -152,7 +179,8 @@ def main():
     verify = "--verify" in sys.argv
     out = "/verif/mutants"
     for d in os.listdir(out) if os.path.isdir(out) else []:
-        shutil.rmtree(os.path.join(out, d))
+        if os.path.isdir(os.path.join(out, d)):
+            shutil.rmtree(os.path.join(out, d))
     env = "GOFLAGS=-mod=mod GOPROXY=off GOSUMDB=off"
     summary = []
     for mu in M:
